@@ -21,3 +21,10 @@ Definition check_case (c : case) : bool :=
 (* printing helper for replays / counter-examples *)
 Definition show_st (s : st) : (bool * bool * nat * list N) := (flag s, held s, opens s, faults s).
 Definition ob (f h : bool) (n : nat) : st := mk_st f h n [].
+
+(* part 2: one real RPC call on a closed instrument: (method program, observed outcome); the outcome must be one
+   the analyser allows from (closed, released). *)
+Definition mcase := (mprog * mout)%type.
+Definition check_mcase (c : mcase) : bool := allowed (snd c) (an false false (fst c)).
+Definition show_res (p : mprog) : (bool * bool * bool) :=
+  let a := an false false p in (rn a, rx a, rt a).
